@@ -484,6 +484,11 @@ impl Adversary for Hostile {
                         Probe::Hc(h) => (h.rx_packet_base_id, h.rx_packet_window_size.max(2), Some(h.rx_frame_base_id)),
                         _ => (self.seen[victim].rx_packet_base.unwrap_or(0), 4096, None),
                     };
+                    // the victim's allocation is (all but) taken by what it holds
+                    let full = match probe {
+                        Probe::Hc(h) => h.rx_alloc > 0 && h.rx_alloc + 1448 > h.rx_max_alloc,
+                        _ => false,
+                    };
                     let fbase = fbase_probe.or(self.seen[victim].rx_frame_base).unwrap_or(0);
                     let fnext = self.flood_next.entry(victim).or_insert(fbase);
                     if fnext.wrapping_sub(fbase) > 1000 {
@@ -491,12 +496,18 @@ impl Adversary for Hostile {
                     }
                     let fid = *fnext;
                     *fnext = fnext.wrapping_add(1);
+                    // ... and when the window has been gone through once, or every third time the
+                    // allocation is found full, the packet that never came does come: a single
+                    // fragment exactly at the window base, with the allocation already taken by
+                    // what is held behind it
                     let off = self.flood_next.entry(victim + 2000).or_insert(1);
-                    if *off >= pwin.min(4096) {
+                    let k = if *off >= pwin.min(4096) || (full && *off % 3 == 0) {
                         *off = 1;
-                    }
-                    let k = *off;
-                    *off += 1;
+                        0
+                    } else {
+                        *off += 1;
+                        *off - 1
+                    };
                     let len = if self.rng.chance(0.8) { 1448 } else { self.rng.range(1, 1448) as usize };
                     let lead = k.min(0xFFFF) as u16;
                     enc_data(fid, false, &[RawDatagram { seq: pbase.wrapping_add(k) & 0xFFFFF, ch: 0, wlead: lead, clead: lead, frag: 0, last: 0, data: vec![0x6B; len], enc: 2 }])
